@@ -264,6 +264,262 @@ func init() {
 		Assumptions: append([]string{"value-identity clause only for specs without `--`", "differential clause (acceptance with env == reference with env fallback) only for specs without option groups"}, commonAssumptions...),
 		Outside:     []string{"longer command lines", "invalid environment values (C06)"},
 	})
+
+	// ---- trees
+	treeUnits := func(entry string, trees []int, k, l int, samples int) []*interp.Unit {
+		var us []*interp.Unit
+		for _, t := range trees {
+			u := unit(cli, entry, fmt.Sprintf("%s[tree %d, K<=%d L<=%d]", entry, t, k, l), map[string]interface{}{"tree": t, "K": k, "L": l})
+			u.Samples = samples
+			us = append(us, u)
+		}
+		return us
+	}
+	allTrees := []int{0, 1, 2, 3, 4, 5}
+	reg(&propDef{
+		ID: "C04", Level: "model_checking",
+		Units: func(c *checkCtx) []*interp.Unit {
+			if c.quick() {
+				return treeUnits("H_route", allTrees, 3, 2, 4)
+			}
+			return append(treeUnits("H_route", allTrees, 4, 2, 4), treeUnits("H_route", allTrees, 3, 3, 4)...)
+		},
+		Bounds: func(c *checkCtx) map[string]interface{} {
+			return map[string]interface{}{"trees": "6 command trees (depth<=3, fan-out<=2, 1-3 aliases incl. prefixes of each other, levels with/without parameters, action-less commands, version flag)",
+				"argv": map[bool]string{true: "raw K<=3 tokens of L<=2 bytes", false: "raw K<=4 L<=2 and K<=3 L<=3"}[c.quick()]}
+		},
+		Assumptions: append([]string{"no help token (C14), no version token; oracle: reference router whose per-level verdicts and bindings come from the real single-level application of that level"}, commonAssumptions...),
+		Outside:     []string{"other trees", "longer command lines"},
+	})
+	reg(&propDef{
+		ID: "C07", Level: "model_checking",
+		Units: func(c *checkCtx) []*interp.Unit {
+			if c.quick() {
+				return treeUnits("H_policy", allTrees, 3, 2, 4)
+			}
+			return append(treeUnits("H_policy", allTrees, 4, 2, 4), treeUnits("H_policy", allTrees, 3, 3, 4)...)
+		},
+		Bounds: func(c *checkCtx) map[string]interface{} { return props["C04"].Bounds(c) },
+		Assumptions: append([]string{"the three policies are three runs of the real code on the same symbolic argv; which command rejects comes from the reference router; addressed commands without Action are excluded; conversion errors through IntOpt -n on tree 0 (strconv uninterpreted, ground-truthed)"}, commonAssumptions...),
+		Outside:     []string{"other trees", "longer command lines", "byte-exact rendering of the help text (C17)"},
+	})
+	reg(&propDef{
+		ID: "C14", Level: "model_checking",
+		Units: func(c *checkCtx) []*interp.Unit {
+			if c.quick() {
+				return treeUnits("H_help", []int{1, 3, 4, 5}, 3, 1, 4)
+			}
+			return append(treeUnits("H_help", allTrees, 4, 1, 4), treeUnits("H_help", []int{1, 5}, 3, 2, 4)...)
+		},
+		Bounds: func(c *checkCtx) map[string]interface{} {
+			return map[string]interface{}{"argv": map[bool]string{true: "K<=3", false: "K<=4 (and K<=3 with 2-byte raw tokens)"}[c.quick()] + " tokens from {-h, --help, --, -v, --version, -f, every alias of the tree, raw bytes}", "policies": "all three (case split)"}
+		},
+		Assumptions: append([]string{"oracle: the statement transcribed (first help token that no `--` precedes addresses the command reached by the sub-command names before it) cross-checked against the reference router; the unclaimed case (ancestor's own arguments contain `--`) is assumed away"}, commonAssumptions...),
+		Outside:     []string{"other trees", "longer command lines", "byte-exact rendering of the help text"},
+	})
+	reg(&propDef{
+		ID: "C05", Level: "model_checking",
+		Units: func(c *checkCtx) []*interp.Unit {
+			ds := []int{0, 1, 2}
+			if !c.quick() {
+				ds = []int{0, 1, 2, 3}
+			}
+			var us []*interp.Unit
+			for _, d := range ds {
+				u := unit(cli, "H_flow", fmt.Sprintf("H_flow[d=%d]", d), map[string]interface{}{"d": d})
+				us = append(us, u)
+			}
+			return us
+		},
+		Bounds: func(c *checkCtx) map[string]interface{} {
+			return map[string]interface{}{"depth": map[bool]string{true: "d<=2 (7 hooks)", false: "d<=3 (9 hooks)"}[c.quick()], "hooks": "each of the 2d+3 hooks is absent / returns / panics(v) / calls Exit(n): all 4^(2d+3) combinations (case split); v and n are symbolic (64-bit), decided by the solver"}
+		},
+		Assumptions: append([]string{"the process-exit function is replaced by a recording stub that does not return (os.Exit never returns)", "oracle: 20-line chain reference (DESIGN D.3)"}, commonAssumptions...),
+		Outside:     []string{"panic(nil)", "hooks calling os.Exit directly", "deeper paths"},
+	})
+	precUnits := func(c *checkCtx, check string) []*interp.Unit {
+		var us []*interp.Unit
+		for t := 0; t < 7; t++ {
+			for opt := 1; opt >= 0; opt-- {
+				envLen, cliLen, maxEnv := 2, 2, 1
+				if !c.quick() {
+					envLen, cliLen, maxEnv = 3, 2, 2
+					if t >= 4 {
+						maxEnv = 1
+					}
+				}
+				role := map[int]string{1: "opt", 0: "arg"}[opt]
+				tn := []string{"bool", "string", "int", "float64", "strings", "ints", "floats64"}[t]
+				u := unit(cli, "H_prec", fmt.Sprintf("H_prec[%s %s env<=%dB x%d cli<=%dB]", tn, role, envLen, maxEnv, cliLen),
+					map[string]interface{}{"type": t, "opt": opt, "check": check, "envLen": envLen, "cliLen": cliLen, "maxEnv": maxEnv})
+				u.Samples = 4
+				us = append(us, u)
+			}
+		}
+		return us
+	}
+	precBounds := func(c *checkCtx) map[string]interface{} {
+		return map[string]interface{}{"instances": "7 built-in types x {option, argument}", "default": "symbolic (strings <=2 bytes, ints 64-bit, bools; floats concrete); lists of 0-2 elements",
+			"environment": map[bool]string{true: "0-1 listed variable, value <=2 ASCII bytes", false: "0-2 listed variables (0-1 for list types), value <=3 ASCII bytes"}[c.quick()], "command line": "the value 0, 1 or 2 times, payload 1-2 arbitrary bytes"}
+	}
+	precAssume := append([]string{"strconv.ParseBool/ParseInt/ParseFloat are uninterpreted functions shared by implementation and oracle; models and counterexamples are made consistent with the real strconv by lazily added ground facts and a corpus of edge-case tokens", "environment values are ASCII without NUL"}, commonAssumptions...)
+	reg(&propDef{ID: "C06", Level: "model_checking", Units: func(c *checkCtx) []*interp.Unit { return precUnits(c, "C06") }, Bounds: precBounds, Assumptions: precAssume,
+		Outside: []string{"longer environment values / more variables", "custom types (C19)"}})
+	reg(&propDef{ID: "C15", Level: "model_checking", Units: func(c *checkCtx) []*interp.Unit { return precUnits(c, "C15") }, Bounds: precBounds, Assumptions: precAssume,
+		Outside: []string{"custom types (C19 checks SetByUser for them too)"}})
+	val := groups["values"]
+	reg(&propDef{
+		ID: "C13", Level: "model_checking",
+		Units: func(c *checkCtx) []*interp.Unit {
+			var us []*interp.Unit
+			for t := 0; t < 7; t++ {
+				tn := []string{"bool", "string", "int", "float64", "strings", "ints", "floats64"}[t]
+				us = append(us, unit(val, "H_set", fmt.Sprintf("H_set[%s L<=8]", tn), map[string]interface{}{"type": t, "L": 8}))
+			}
+			return append(us, precUnits(c, "C13")...)
+		},
+		Bounds: func(c *checkCtx) map[string]interface{} {
+			b := precBounds(c)
+			b["H_set"] = "every Set method on tokens of <=8 arbitrary bytes"
+			return b
+		},
+		Assumptions: precAssume,
+		Outside:     []string{"the arithmetic of strconv itself (it is the oracle)", "tokens longer than 8 bytes (the glue code does not inspect the bytes)"},
+	})
+	reg(&propDef{
+		ID: "C16", Level: "model_checking",
+		Units: func(c *checkCtx) []*interp.Unit {
+			var us []*interp.Unit
+			for nopt := 0; nopt <= 2; nopt++ {
+				for narg := 0; narg <= 2; narg++ {
+					for swap := 0; swap <= 1; swap++ {
+						if swap == 1 && nopt != 1 && narg != 1 {
+							continue
+						}
+						profs := []profile{{"tmpl K<=2 Lp<=1", map[string]interface{}{"profile": "tmpl", "K": 2, "Lp": 1}}, {"raw K<=2 L<=2", map[string]interface{}{"profile": "raw", "K": 2, "L": 2}}}
+						if !c.quick() {
+							profs = []profile{{"tmpl K<=3 Lp<=1", map[string]interface{}{"profile": "tmpl", "K": 3, "Lp": 1}}, {"raw K<=2 L<=3", map[string]interface{}{"profile": "raw", "K": 2, "L": 3}}}
+						}
+						for _, pr := range profs {
+							ps := map[string]interface{}{"nopt": nopt, "narg": narg, "swap": swap}
+							for k, v := range pr.params {
+								ps[k] = v
+							}
+							u := unit(cli, "H_defspec", fmt.Sprintf("H_defspec[%d opts %d args v%d %s]", nopt, narg, swap, pr.name), ps)
+							u.Samples = 2
+							us = append(us, u)
+						}
+					}
+				}
+			}
+			return us
+		},
+		Bounds: func(c *checkCtx) map[string]interface{} {
+			return map[string]interface{}{"declarations": "0-2 options from {flag -a/--aa, valued -o/--oo}, 0-2 arguments from {X, Y}: 15 sets", "argv": map[bool]string{true: "template K<=2, raw K<=2 L<=2", false: "template K<=3, raw K<=2 L<=3"}[c.quick()],
+				"sub-commands": "spec-less sub-commands are exercised by trees 1 and 4 of C04/C07/C14 (usage line oracle assumes C16)"}
+		},
+		Assumptions: commonAssumptions,
+		Outside:     []string{"more declarations", "longer command lines"},
+	})
+	reg(&propDef{
+		ID: "C17", Level: "model_checking",
+		Units: func(c *checkCtx) []*interp.Unit {
+			cfgs := [][]int{{0, 0, 0, 0, 0}, {1, 1, 1, 0, 0}, {2, 2, 2, 0, 1}, {1, 3, 0, 1, 3}, {0, 1, 3, 0, 2}, {2, 0, 1, 1, 0}}
+			if !c.quick() {
+				cfgs = append(cfgs, []int{2, 3, 3, 0, 0}, []int{2, 3, 3, 1, 1}, []int{1, 2, 3, 1, 2}, []int{2, 3, 2, 0, 3}, []int{0, 3, 1, 1, 0}, []int{1, 1, 2, 0, 2})
+			}
+			var us []*interp.Unit
+			for _, g := range cfgs {
+				u := unit(cli, "H_helptext", fmt.Sprintf("H_helptext[%d args %d opts %d kids depth %d first %d]", g[0], g[1], g[2], g[3], g[4]),
+					map[string]interface{}{"nargs": g[0], "nopts": g[1], "nkids": g[2], "depth": g[3], "firstopt": g[4], "wordLen": pick(c, 1, 2)})
+				u.Samples = 4
+				us = append(us, u)
+			}
+			return us
+		},
+		Bounds: func(c *checkCtx) map[string]interface{} {
+			return map[string]interface{}{"declarations": "0-2 arguments, 0-3 options (6 name-list shapes: short only, long only, short+long, two shorts, two longs, long+two shorts; bool/int/ints defaults), 0-3 sub-commands (1-3 aliases, Hidden symbolic), LongDesc presence, PrintHelp/PrintLongHelp, root or sub-command",
+				"descriptions": fmt.Sprintf("symbolic lower-case words of <=%d bytes, optionally two lines; env lists of 0-2 names; HideValue", pick(c, 1, 2))}
+		},
+		Assumptions: append([]string{"compared after whitespace normalisation (runs of blanks collapsed, lines trimmed, empty lines dropped): text/tabwriter is a pass-through in the engine and the real one in the native twin; byte rendering by fmt and tabwriter is trusted"}, commonAssumptions...),
+		Outside:     []string{"descriptions containing blanks other than the modelled line break", "column alignment"},
+	})
+	reg(&propDef{
+		ID: "C18", Level: "model_checking",
+		Units: func(c *checkCtx) []*interp.Unit {
+			type pc struct {
+				pat            string
+				optLen, argLen int
+			}
+			pcs := []pc{{"oo", 3, 1}, {"aa", 1, 2}, {"oa", 2, 2}, {"ao", 2, 2}}
+			if !c.quick() {
+				pcs = []pc{{"oo", 4, 1}, {"aa", 1, 3}, {"oa", 3, 2}, {"ao", 3, 2}, {"ooo", 2, 1}, {"aaa", 1, 1}, {"oao", 2, 1}}
+			}
+			var us []*interp.Unit
+			for _, x := range pcs {
+				us = append(us, unit(cli, "H_decl", fmt.Sprintf("H_decl[%s optLen<=%d argLen<=%d]", x.pat, x.optLen, x.argLen),
+					map[string]interface{}{"pattern": x.pat, "ndecl": len(x.pat), "optLen": x.optLen, "argLen": x.argLen}))
+			}
+			return us
+		},
+		Bounds: func(c *checkCtx) map[string]interface{} {
+			return map[string]interface{}{"sequences": map[bool]string{true: "2 declarations (option/option, argument/argument, mixed)", false: "2-3 declarations"}[c.quick()], "names": "raw ASCII bytes: option name lists " + map[bool]string{true: "<=3", false: "<=4"}[c.quick()] + " bytes (blanks split them into several names), argument names <=2-3 bytes without blanks"}
+		},
+		Assumptions: commonAssumptions,
+		Outside:     []string{"non-ASCII names", "argument names containing blanks (C08)", "longer names"},
+	})
+	reg(&propDef{
+		ID: "C19", Level: "model_checking",
+		Units: func(c *checkCtx) []*interp.Unit {
+			var us []*interp.Unit
+			for combo := 0; combo < 8; combo++ {
+				for opt := 1; opt >= 0; opt-- {
+					lp, el := 1, 2
+					if !c.quick() {
+						lp, el = 2, 3
+					}
+					u := unit(cli, "H_custom", fmt.Sprintf("H_custom[combo %03b %s Lp<=%d env<=%d]", combo, map[int]string{1: "opt", 0: "arg"}[opt], lp, el),
+						map[string]interface{}{"combo": combo, "opt": opt, "Lp": lp, "envLen": el})
+					u.Samples = 3
+					us = append(us, u)
+				}
+			}
+			return us
+		},
+		Bounds: func(c *checkCtx) map[string]interface{} {
+			return map[string]interface{}{"types": "8 recorder types (IsBoolFlag x Clear x IsDefault) as option and as argument", "inputs": "0-2 command-line values (flag-like options also bare), symbolic payloads, symbolic poison token on which Set fails, symbolic environment value"}
+		},
+		Assumptions: append([]string{"environment values are ASCII without NUL"}, commonAssumptions...),
+		Outside:     []string{"more than 2 values", "several environment variables"},
+	})
+	reg(&propDef{
+		ID: "C20", Level: "other",
+		Explanation: "Decided by symbolic execution of the real code with an SMT solver, sequentially: (1) footprint - on every explored path the engine records every store and load the library performs on package-level variables: no store, loads only of stdOut/stdErr/exiter and the two sentinel errors; (2) non-interference - an application's outcome is unchanged when another application (independent symbolic inputs) runs before it; (3) determinism - rebuilding and rerunning gives the same outcome under every map iteration order the engine explores. Interleavings of goroutines are NOT explored (a sequential symbolic executor cannot); race freedom for concurrently built-and-run applications follows from (1) by argument: applications share no written location.",
+		Units: func(c *checkCtx) []*interp.Unit {
+			var us []*interp.Unit
+			n := 6
+			for a := 0; a < n; a++ {
+				if c.quick() && a%2 == 1 {
+					continue
+				}
+				ps := func(mode string, k, l int) map[string]interface{} {
+					return map[string]interface{}{"specA": a, "specB": (a + 1) % n, "mode": mode, "profile": "raw", "K": k, "L": l}
+				}
+				us = append(us, unit(cli, "H_indep", fmt.Sprintf("H_indep[footprint spec %d raw K<=2 L<=2]", a), ps("footprint", 2, 2)))
+				us = append(us, unit(cli, "H_indep", fmt.Sprintf("H_indep[determinism spec %d raw K<=2 L<=2]", a), ps("determinism", 2, 2)))
+				us = append(us, unit(cli, "H_indep", fmt.Sprintf("H_indep[interfere spec %d/%d raw K<=1 L<=2]", a, (a+1)%n), ps("interfere", 1, 2)))
+			}
+			for _, u := range us {
+				u.Samples = 2
+			}
+			return us
+		},
+		Bounds: func(c *checkCtx) map[string]interface{} {
+			return map[string]interface{}{"specs": "6 specs over the table, every subset of options env-backed", "argv": "raw K<=2 L<=2 (interference: K<=1 for A, K<=2 for B)", "map orders": "all permutations up to 3 entries, rotations and reversal above"}
+		},
+		Assumptions: append([]string{"race freedom is an argument from the disjoint-footprint result, not an exploration of schedules", "the harness itself redirects stdErr/stdOut/exiter before the measured region"}, commonAssumptions...),
+		Outside:     []string{"goroutine interleavings", "longer inputs"},
+	})
 }
 
 func containsEnd(s string) bool {
